@@ -173,6 +173,7 @@ class HD61202Controller:
         offset = 0
         for chip, chip_meta in zip(self.chips, chips_meta):
             chip.state.on = bool(chip_meta.get("on", False))
+            chip.state.busy = bool(chip_meta.get("busy", False))
             chip.state.start_line = int(chip_meta.get("start_line", 0)) & 0x3F
             chip.state.page = int(chip_meta.get("page", 0)) % pages
             chip.state.y_address = int(chip_meta.get("y_address", 0)) % width
